@@ -30,6 +30,7 @@ class HealthCheckServer:
         )
         self._server_protocol: asyncio.AbstractServer | None = None
         self._server: asyncio.AbstractServer | None = None
+        self._connections: set[asyncio.BaseTransport] = set()
         self._health_status = HealthCheckStatus.OK
 
     async def start(self) -> None:
@@ -39,6 +40,7 @@ class HealthCheckServer:
                 lambda: _HttpServerProtocol(
                     endpoint_name=self.server_settings.endpoint_name,
                     get_status=lambda: self.health_status,
+                    connections=self._connections,
                 ),
                 host=self.server_settings.address,
                 port=self.server_settings.port,
@@ -50,6 +52,10 @@ class HealthCheckServer:
     async def stop(self) -> None:
         if self._server is not None:
             self._server.close()
+            # a client which is still connected (e.g. one that has not sent its request yet)
+            # would keep `wait_closed()` waiting: the server is going away, drop it
+            for transport in list(self._connections):
+                transport.close()
             await self._server.wait_closed()
             logger.info("Stopped health check server.")
 
@@ -64,11 +70,17 @@ class HealthCheckServer:
 
 
 class _HttpServerProtocol(asyncio.Protocol):
-    def __init__(self, endpoint_name: str, get_status: Callable[[], HealthCheckStatus]) -> None:
+    def __init__(
+        self,
+        endpoint_name: str,
+        get_status: Callable[[], HealthCheckStatus],
+        connections: set[asyncio.BaseTransport] | None = None,
+    ) -> None:
         super().__init__()
         self.endpoint_name = endpoint_name
         # the status is read when a request is answered, not when the connection was accepted
         self.get_status = get_status
+        self.connections = connections
 
     @property
     def status(self) -> HealthCheckStatus:
@@ -76,6 +88,12 @@ class _HttpServerProtocol(asyncio.Protocol):
 
     def connection_made(self, transport: asyncio.BaseTransport) -> None:
         self.transport: asyncio.WriteTransport = transport  # type: ignore[assignment]
+        if self.connections is not None:
+            self.connections.add(transport)
+
+    def connection_lost(self, exc: Exception | None) -> None:  # noqa: ARG002
+        if self.connections is not None:
+            self.connections.discard(self.transport)
 
     def data_received(self, data: bytes) -> None:
         message = data.decode()
